@@ -73,6 +73,16 @@ func main() {
 		}
 		return
 	}
+	if *dump == "anchors" {
+		abs, _ := filepath.Abs(*repo)
+		ctx, err := lint.Load(abs, "", lint.ModulePath, 11)
+		if err != nil {
+			fmt.Println(err)
+			os.Exit(2)
+		}
+		fmt.Print(ctx.AnchorTable())
+		return
+	}
 	if *dump == "slots" {
 		abs, _ := filepath.Abs(*repo)
 		ctx, err := lint.Load(abs, "", lint.ModulePath, 11)
@@ -117,6 +127,7 @@ func main() {
 		lastCtx = ctx
 		r := lint.NewReport(*prop, run.Level)
 		run.Fn(ctx, r)
+		r.Assumptions = append(r.Assumptions, ctx.AnchorNotes...)
 		if rep == nil {
 			rep = r
 		} else {
